@@ -373,7 +373,9 @@ def verify_contract(contract: Contract, registry: Registry, timeout_ms=30000, lo
             return   # one failing path instance decides the status; do not burn more solver budget
         if kind != "obligation" and res.status in ("refuted", "reachable"):
             return
-        solver, r, ms, be = _solve(ob.pc, ob.goal, tmo, ob.expect)
+        if kind == "canary" and res.instances > 24:
+            return   # a few path instances are enough to exercise the refutation path
+        solver, r, ms, be = _solve(ob.pc, ob.goal, tmo if kind == "obligation" else min(tmo, 3000), ob.expect)
         candidate = False
         if refute is not None and r == "unknown":
             # bounded refuter: look for a candidate counter-model with the quantifier-free premises only.  Such a
@@ -423,8 +425,13 @@ def verify_contract(contract: Contract, registry: Registry, timeout_ms=30000, lo
                     res.model = _model_values(solver.model(), watch)
                 except Exception:
                     res.model = None
+            elif kind == "canary":
+                if r == "unsat" and res.status in (None, "dead"):
+                    res.status = "dead"
+                else:
+                    res.status = "not-refuted"
             elif res.status is None:
-                res.status = "not-refuted" if kind == "canary" else ("unreachable" if r == "unsat" else "reach-unknown")
+                res.status = "unreachable" if r == "unsat" else "reach-unknown"
 
     while worklist:
         script = worklist.pop()
@@ -482,12 +489,20 @@ def verify_contract(contract: Contract, registry: Registry, timeout_ms=30000, lo
                 raise Unsupported("break/continue outside loop")
             if outcome[0] == "normal":
                 outcomes["normal"] += 1
+                if refute is None:
+                    # vacuity guard: a normal-return path whose path condition is provably inconsistent is dead
+                    sq = _mk_solver(st.pc, z3.BoolVal(True), 800)
+                    if str(sq.check()) == "unsat":
+                        outcomes["dead_normal"] = outcomes.get("dead_normal", 0) + 1
                 result = outcome[1]
                 extra = {"result": result}
                 eframe = Frame(contract, contract.file, contract.cls, dict(frame.old_env), fn=fdef)
                 for name, text in contract.ensures.items():
                     f = spec_eval(ev, text, extra, frame=eframe)
                     st.oblige("%s/ens.%s" % (contract.id, name), f, note=text)
+                if refute is not None and contract.ensures:
+                    st.oblige("%s/canary.normal_return_reachable" % contract.id, z3.BoolVal(True), expect="sat",
+                              note="automatic vacuity guard: some concrete input reaches a normal return")
                 if refute is not None:
                     # canaries (deliberately false clauses) are decided by the bounded refuter only: a model
                     # of a quantified query is not something the unbounded provers return reliably
@@ -532,6 +547,19 @@ def verify_contract(contract: Contract, registry: Registry, timeout_ms=30000, lo
                 traceback.print_exc()
             undecided_paths.append("z3 exception: %s" % ze)
         worklist.extend(run.alternatives)
+        if refute is not None and only is not None and not only:
+            # canary-only run: stop as soon as every canary is decided (refuted) or has had enough attempts
+            cans = [r_ for r_ in results.values() if r_.kind == "canary"]
+            want = set(contract.canaries) | ({"normal_return_reachable"} if contract.ensures else set())
+            have = {r_.name.split("/canary.")[-1] for r_ in cans}
+            if cans and want <= have and all(r_.status == "refuted" or r_.instances > 24 for r_ in cans):
+                for ob in run.obligations:
+                    if ob.key not in seen_keys:
+                        seen_keys.add(ob.key)
+                        record(ob, watch)
+                cans = [r_ for r_ in results.values() if r_.kind == "canary"]
+                if all(r_.status == "refuted" or r_.instances > 24 for r_ in cans):
+                    worklist = []
         if os.environ.get("PYVC_DEBUG"):
             print("   [path %d] outcome=%s script=%s obligations=%d t=%.1fs" % (
                 n_paths, outcome and outcome[0], run.script, len(run.obligations), time.time() - t_start))
@@ -551,7 +579,7 @@ def verify_contract(contract: Contract, registry: Registry, timeout_ms=30000, lo
 
     if pending:
         import concurrent.futures as _cf
-        with _cf.ThreadPoolExecutor(max_workers=int(os.environ.get("PYVC_SOLVER_JOBS", "12"))) as ex:
+        with _cf.ThreadPoolExecutor(max_workers=int(os.environ.get("PYVC_SOLVER_JOBS", "6"))) as ex:
             futs = [ex.submit(solve_plans, plans, tmo) for _, _, plans in pending]
             outs = [f.result() for f in futs]
         for (ob, watch, plans), (r, be, ms) in zip(pending, outs):
@@ -615,6 +643,8 @@ def frame_obligations(ev, contract, old_env):
         if not isinstance(v, VRef) or v.oid in seen or depth > 4:
             return
         seen.add(v.oid)
+        if v.oid in mod_objs:
+            return
         new = st.heap.get(v.oid)
         old = st.old_heap.get(v.oid)
         if new is None or old is None:
